@@ -100,6 +100,22 @@ pub fn ensure_init() -> Result<()> {
 }
 
 pub mod crypto_box;
+pub mod crypto_core {
+    //! `crypto_core_ed25519_is_valid_point`: the same uninterpreted validity predicate the Ed25519 model uses everywhere
+    //! (holds for every public key the model derives; libsodium additionally rejects small-order and non-canonical points,
+    //! which is inside "valid" here).
+    pub mod ed25519 {
+        pub const BYTES: usize = 32;
+        pub fn is_valid_point(p: &[u8]) -> crate::Result<bool> {
+            if p.len() != BYTES {
+                return Err(crate::SodiumError::InvalidInput("invalid point length"));
+            }
+            let mut b = [0u8; 32];
+            b.copy_from_slice(p);
+            Ok(crate::crypto_sign::point_valid(&b))
+        }
+    }
+}
 pub mod crypto_generichash;
 pub mod crypto_pwhash;
 pub mod crypto_scalarmult;
